@@ -416,7 +416,7 @@ var ambientWrapped = map[string]string{
 	"time.Now": "Now", "time.Since": "Since", "time.Until": "Until",
 	"math/rand.Int63": "RandInt63", "math/rand.Intn": "RandIntn", "math/rand.Int": "RandInt",
 	"math/rand.Uint32": "RandUint32", "math/rand.Uint64": "RandUint64", "math/rand.Float64": "RandFloat64",
-	"os.Getpid": "Getpid", "os.Getenv": "Getenv", "os.Hostname": "Hostname",
+	"os.Getpid": "Getpid", "os.Getenv": "Getenv", "os.Hostname": "Hostname", "os.ExpandEnv": "ExpandEnv",
 }
 
 var ambientRefused = map[string]bool{
